@@ -466,6 +466,11 @@ class Config:
                 value = default_bool
             else:
                 value = str_to_value(value)
+                if value is not None and not isinstance(value, bool):
+                    raise ValueError(
+                        f"Illegal value {value!r} "
+                        f"passed for attribute {attribute!r}. Expected bool."
+                    )
         elif attribute == 'default_ns':
             if value is not None:
                 value = verify_default_ns(value)
